@@ -92,10 +92,20 @@ class Instruction(_mixins.DictMixin, _mixins.RegisterMixin, _mixins.CodeMixin):
 
             _resolved_params[name] = resolved_param
 
+        # NOTE: The parameters specified by the user (e.g., expression strings) are
+        # kept, so that they can be restored exactly by `_unresolve_params`.
+        if not hasattr(self, "_params_before_resolution"):
+            self._params_before_resolution = {
+                name: self._params[name]
+                for name in self._unresolved_params
+                if name in self._params
+            }
+
         self._params.update(_resolved_params)
 
     def _unresolve_params(self):
-        self._params.update(self._unresolved_params)
+        self._params.update(getattr(self, "_params_before_resolution", {}))
+        self.__dict__.pop("_params_before_resolution", None)
 
     @property
     def modes(self) -> Tuple[int, ...]:
